@@ -31,6 +31,9 @@ def untranslated : List String := []
 def translated : List String := ["pow10(n)", "LossLessSwap(input,ratio,inputScale,outputScale)"]
 
 /-- every rejecting guard of the translated functions, in source order -/
-def guards : List String := []
+def guards : List String := ["erc20Hook.PostTxProcessing: eventArgs, err := erc20.Unpack(event.Name, log.Data); err != nil", "erc20Hook.PostTxProcessing: len(eventArgs) != 3", "erc20Hook.PostTxProcessing: !ok || len(to) == 0", "erc20Hook.PostTxProcessing: receiver, err := sdk.AccAddressFromBech32(to); err != nil", "erc20Hook.PostTxProcessing: !ok || amount.Cmp(big.NewInt(0)) == 0", "erc20Hook.PostTxProcessing: err := hook.k.bankKeeper.MintCoins(ctx, types.ModuleName, mintedCoins); err != nil", "erc20Hook.PostTxProcessing: err := hook.k.bankKeeper.SendCoinsFromModuleToAccount(ctx, types.ModuleName, receiver, mintedCoins); err != nil", "Keeper.SwapFromERC20: token, err := k.getTokenByMinUnit(ctx, wantedAmount.Denom); err != nil", "Keeper.SwapFromERC20: len(token.Contract) == 0", "Keeper.SwapFromERC20: err := k.BurnERC20(ctx, contract, sender, wantedAmount.Amount.BigInt()); err != nil", "Keeper.SwapFromERC20: err := k.bankKeeper.MintCoins(ctx, types.ModuleName, mintedCoins); err != nil", "Keeper.SwapFromERC20: err := k.bankKeeper.SendCoinsFromModuleToAccount(ctx, types.ModuleName, receiver, mintedCoins); err != nil", "Keeper.SwapToERC20: !k.evmKeeper.SupportedKey(receiverAcc.GetPubKey())", "Keeper.SwapToERC20: token, err := k.getTokenByMinUnit(ctx, amount.Denom); err != nil", "Keeper.SwapToERC20: len(token.Contract) == 0", "Keeper.SwapToERC20: err := k.bankKeeper.SendCoinsFromAccountToModule(ctx, sender, types.ModuleName, amt); err != nil", "Keeper.SwapToERC20: err := k.bankKeeper.BurnCoins(ctx, types.ModuleName, amt); err != nil", "Keeper.SwapToERC20: err := k.MintERC20(ctx, contract, receiver, amount.Amount.BigInt()); err != nil", "msgServer.SwapFromERC20: sender, err := sdk.AccAddressFromBech32(msg.Sender); err != nil", "msgServer.SwapFromERC20: receiver, err := sdk.AccAddressFromBech32(msg.Receiver); err != nil", "msgServer.SwapFromERC20: err := m.k.SwapFromERC20(ctx, common.BytesToAddress(sender.Bytes()), receiver, msg.WantedAmount); err != nil", "msgServer.SwapToERC20: sender, err := sdk.AccAddressFromBech32(msg.Sender); err != nil", "msgServer.SwapToERC20: err := m.k.SwapToERC20(ctx, sender, receiver, msg.Amount); err != nil"]
+
+/-- every statement of the translated functions executed for its effect, with its nesting depth, in source order -/
+def effects : List String := ["LossLessSwap: d0 output.Quo(output, den)", "LossLessSwap: d0 taken.Add(taken, new(big.Int).Sub(num, big.NewInt(1)))", "LossLessSwap: d0 taken.Quo(taken, num)"]
 
 end Irismod.Gen.PureToken
